@@ -66,10 +66,10 @@ def tfile_scripts(ctx, modes=("whole", "bytes", "rand")):
 # ================================================================================================ C09
 
 def c09_scripts(ctx):
-    n = 700 if ctx.tier == "quick" else 6000
+    n = 700 if ctx.tier == "quick" else 30000
     sc = mixed_scripts(ctx, n, policy_p=0.7)
     sc += tfile_scripts(ctx, modes=("whole", "rand"))
-    sc += handover_scripts(ctx, 300 if ctx.tier == "quick" else 3000)
+    sc += handover_scripts(ctx, 300 if ctx.tier == "quick" else 12000)
     sc += lib.load_fuzz_corpus(ctx, 1500, "C09")
     return sc
 
@@ -140,10 +140,10 @@ def c09_oracle(sc, outs):
 
 def c05_scripts(ctx):
     rng = ctx.rng
-    n = 600 if ctx.tier == "quick" else 5000
+    n = 600 if ctx.tier == "quick" else 25000
     sc = mixed_scripts(ctx, n, policy_p=0.4)
     sc += tfile_scripts(ctx, modes=("whole", "bytes", "rand"))
-    sc += handover_scripts(ctx, 250 if ctx.tier == "quick" else 2500)
+    sc += handover_scripts(ctx, 250 if ctx.tier == "quick" else 10000)
     sc += lib.load_fuzz_corpus(ctx, 1500, "C05")
     return sc
 
@@ -280,7 +280,7 @@ def wire_body_len(m):
 
 def c06_scripts(ctx):
     rng = ctx.rng
-    n = 500 if ctx.tier == "quick" else 4000
+    n = 500 if ctx.tier == "quick" else 16000
     out, meta = [], []
     for _ in range(n):
         w = wellformed_case(rng)
@@ -302,7 +302,7 @@ def c06_scripts(ctx):
     # arrives between them, followed by a pipelined request: the body must still be delivered exactly and the next message must
     # start right behind it. (A 4xx before the FIRST body byte is the documented shortcut - the client is then expected not to send
     # the body - and is not generated.)
-    for _ in range(120 if ctx.tier == "quick" else 1200):
+    for _ in range(120 if ctx.tier == "quick" else 5000):
         body = bytes(rng.choice(b"abcXYZ\r\n0123 GET/HTTP:") for _ in range(rng.randint(2, 40)))
         k = rng.randint(1, len(body) - 1)
         post = traffic.Msg(); post.method = b"POST"; post.target = b"/early"; post.version = b"HTTP/1.1"; post.body = body; post.body_kind = "cl"
@@ -326,10 +326,10 @@ def c06_scripts(ctx):
         out.append(traffic.script(rng.choice(("respdecomp=0", "p=IDS,respdecomp=0")), "-", items, op="pump"))
         meta.append({"reqs": [post, get], "ress": [r1, r2], "rq": [head + body, nxt], "rs": [final, resp2], "R": head + body + nxt, "S": interim + final + resp2})
     # accounting part: all inputs
-    acc = mixed_scripts(ctx, 300 if ctx.tier == "quick" else 3000, policy_p=0.0, tail=False,
+    acc = mixed_scripts(ctx, 300 if ctx.tier == "quick" else 12000, policy_p=0.0, tail=False,
                         cfg_fn=lambda r: r.choice(("respdecomp=0", "p=IDS,respdecomp=0")))
     # gaps inside bodies (both directions), with and without the library's own body parsers, followed by more body data
-    for _ in range(100 if ctx.tier == "quick" else 1000):
+    for _ in range(100 if ctx.tier == "quick" else 4000):
         ct = rng.choice((b"application/x-www-form-urlencoded", b"multipart/form-data; boundary=B", b"text/plain"))
         body = rng.choice((b"a=1&bb=2&c=%41+d&e", b"--B\r\nContent-Disposition: form-data; name=\"f\"\r\n\r\nvalue\r\n--B--\r\n",
                            bytes(rng.choice(b"ab=&\r\n-B") for _ in range(rng.randint(6, 40)))))
@@ -557,7 +557,7 @@ def c11_response_case(rng, trig):
 
 def c11_scripts(ctx):
     rng = ctx.rng
-    n = 900 if ctx.tier == "quick" else 8000
+    n = 900 if ctx.tier == "quick" else 40000
     out, meta = [], []
     for _ in range(n):
         req, exp, trig = c11_case(rng)
@@ -638,7 +638,7 @@ def c16_case(rng):
 
 def c16_scripts(ctx):
     rng = ctx.rng
-    n = 700 if ctx.tier == "quick" else 6000
+    n = 700 if ctx.tier == "quick" else 30000
     out, meta = [], []
     for _ in range(n):
         w = c16_case(rng)
@@ -738,7 +738,7 @@ def make_c16_oracle(by_id):
 
 def c04_scripts(ctx):
     rng = ctx.rng
-    n = 600 if ctx.tier == "quick" else 5000
+    n = 600 if ctx.tier == "quick" else 25000
     out, meta = [], []
     for _ in range(n):
         N = rng.choice((1, 2, 2, 3, 3, 4, rng.randint(1, 8)))
@@ -1131,7 +1131,7 @@ def expected_headers(headers):
 
 def c02_scripts(ctx):
     rng = ctx.rng
-    n = 1500 if ctx.tier == "quick" else 8000
+    n = 1500 if ctx.tier == "quick" else 30000
     out, meta = [], []
     opts = {"folding": True, "repeat": True, "urlenc_bodies": True, "close_delimited": True, "digest": True}
     for _ in range(n):
@@ -1246,7 +1246,7 @@ def c19_scripts(ctx):
     """K connections created from ONE configuration, their calls interleaved call by call on one thread; each connection's
     solo run is included as its own script so that outputs can be compared"""
     rng = ctx.rng
-    n = 120 if ctx.tier == "quick" else 1200
+    n = 120 if ctx.tier == "quick" else 4000
     out, meta = [], []
     for gi in range(n):
         K = rng.randint(2, 8)
